@@ -97,7 +97,7 @@ def project(events):
     out = []
     for e in merge_sig(events):
         op = e.get("op")
-        if op in DROP_OPS or e.get("var") == "?":
+        if op in DROP_OPS or e.get("var") == "?" or e.get("loc") == "plain":
             continue
         n = {"t": e.get("t", "-"), "op": op, "var": e.get("var", "-"), "xa": "-", "xr": "-"}
         if op in XA and XA[op] in e:
@@ -347,7 +347,7 @@ def project_real(events):
         return n
     for e in merge_sig(events):
         op = e.get("op"); t = e.get("t", "-"); var = e.get("var", "-")
-        if op in DROP_OPS:
+        if op in DROP_OPS or e.get("loc") == "plain":     # (plain accesses to named locations, logged only with CR_WATCH_PLAIN: not part of the specification)
             continue
         if op == "sig_enter":
             insig[t] = insig.get(t, 0) + 1
